@@ -1,10 +1,76 @@
-(* Property C20 - source wrappers are transparent.  Statements only.
-   PART B: sourcewrap.Blank (proofs in Ez/EzProofs.v, model in Ez/Ez.v).
-   (Part A, the transforming source/decoder, is stated in Properties/C20A.v.) *)
+(* Property C20 - source wrappers are transparent.
+   PART A: the transforming source / decoder (sourcewrap/transforming_source.go);
+   proofs in Transform/TransformingSourceProofs.v.
+   PART B: sourcewrap.Blank (sourcewrap/blank.go); model Ez/Ez.v, proofs Ez/EzProofs.v.
+   Statements only. *)
 From Coq Require Import List NArith ZArith Bool.
 From Dials Require Import Base.Outcome Base.Runes Reflect.Ty Reflect.Ptrify Stack.Overlay
-  Ez.SeqDials Ez.Ez Ez.EzProofs.
+  Transform.RType Transform.Manglers Transform.Transformer Transform.TransformingSource
+  Transform.TransformingSourceProofs.
 Import ListNotations.
+
+(* ===== transforming source ===== *)
+
+(* Value: what Dials receives is the reverse translation of what the inner
+   source produced for the translated type; the Dials built on it starts
+   exactly like one fed natively with that value *)
+Theorem wrapped_value_transparent : forall fuel E ms fs defaults t inner ttr x v',
+  translate fuel ms t = Ok (ttr, x) -> inner ttr = Ok v' ->
+  ts_value fuel E ms t inner = reverse fuel E ms x v' /\
+  dials_config fs defaults (ts_value fuel E ms t inner) = dials_config fs defaults (reverse fuel E ms x v').
+Proof.
+  intros. split; [eapply ts_value_transparent | eapply ts_config_transparent]; eassumption.
+Qed.
+
+(* Watch: for ANY sequence of values reported by the inner watcher, the
+   monitor fed through the wrapped watch arguments goes through exactly the
+   states of a monitor fed natively with the reverse-translated values, an
+   un-reversible value being an error report in both *)
+Theorem wrapped_updates_transparent : forall fuel E ms fs defaults s x vs,
+  (rs <- wrapped_reports fuel E ms x vs ;; dials_run fs defaults s rs) =
+  (rs <- native_reports (map (reverse fuel E ms x) vs) ;; dials_run fs defaults s rs).
+Proof. exact updates_transparent. Qed.
+
+(* an un-reversible value is reported as an error and the view stays; a
+   reversible one is forwarded reverse-translated *)
+Theorem unreversible_update_is_an_error : forall fuel E ms fs defaults s x v c,
+  reverse fuel E ms x v = Err c ->
+  (r <- ts_report fuel E ms x v ;; dials_step fs defaults s r) = Ok (DS (d_view s) (d_errors s + 1)).
+Proof. exact unreversible_not_forwarded. Qed.
+
+Theorem reversible_update_is_forwarded : forall fuel E ms fs defaults s x v u,
+  reverse fuel E ms x v = Ok u ->
+  (r <- ts_report fuel E ms x v ;; dials_step fs defaults s r) = dials_step fs defaults s (RValue u).
+Proof. exact reversible_is_forwarded. Qed.
+
+(* errors are propagated, never swallowed: translation, inner Value, reverse
+   translation, inner Watch *)
+Theorem errors_propagate : forall fuel E ms t,
+  (forall inner c, translate fuel ms t = Err c -> ts_value fuel E ms t inner = Err c) /\
+  (forall inner ttr x c, translate fuel ms t = Ok (ttr, x) -> inner ttr = Err c ->
+     ts_value fuel E ms t inner = Err c) /\
+  (forall inner ttr x v' c, translate fuel ms t = Ok (ttr, x) -> inner ttr = Ok v' ->
+     reverse fuel E ms x v' = Err c -> ts_value fuel E ms t inner = Err c) /\
+  (forall iw ttr x c, translate fuel ms t = Ok (ttr, x) -> iw ttr = Err c -> ts_watch fuel ms t iw = Err c) /\
+  (forall iw c, translate fuel ms t = Err c -> ts_watch fuel ms t iw = Err c) /\
+  (forall fs defaults c, dials_config fs defaults (Err c) = Err c).
+Proof.
+  intros. repeat split; intros.
+  - now apply value_translate_error.
+  - eapply value_inner_error; eassumption.
+  - eapply value_reverse_error; eassumption.
+  - eapply watch_inner_error; eassumption.
+  - now apply watch_translate_error.
+Qed.
+
+Print Assumptions wrapped_value_transparent.
+Print Assumptions wrapped_updates_transparent.
+Print Assumptions unreversible_update_is_an_error.
+Print Assumptions reversible_update_is_forwarded.
+Print Assumptions errors_propagate.
+
+(* ===== PART B: Blank ===== *)
+From Dials Require Import Ez.SeqDials Ez.Ez Ez.EzProofs.
 Open Scope N_scope.
 
 (* A successful SetSource makes the Blank delegate to the new inner source;
